@@ -82,6 +82,8 @@ func newGetCacheOp
   requires pos != nil
   ensures result != nil && fresh(result) && result.pos == pos
   ensures C04/evalI-of-get: evalI(box(result), theCache()) == pathval(theCache(), posb(pos.Index, pos.Height))
+  ensures C03/evalC-of-get: evalC(box(result), thePath()) == pathval(thePath(), posb(pos.Index, pos.Height))
+  ensures C03/readsOK-of-get: readsOK(box(result), thePath()) == pathhas(thePath(), posb(pos.Index, pos.Height))
 
 func newPutCacheOp
   props C01 C04 C12
@@ -347,11 +349,17 @@ func pruneToVerify.traverse
 func pruneToVerifyIncrementalStart
   props C03 C12
   ensures !isnil(result)
+// C03 (start side): if every value the END recomputation reads below pos is the true one
+// (AgreeE, history.spec), the START recomputation below pos yields the true hash of that subtree
+// in the tree of the start version. (theEnd(), thePath(): arbitrary, fixed.)
 func pruneToVerifyIncrementalStart.traverse
   props C03 C12
   requires pos != nil
   decreases pos.Height
   ensures !isnil(result)
+  // (a leaf hashes the same in every version)
+  ensures C03/leaf-is-version-independent: pos.Height == 0 ==> HistFull(pos.Index, pos.Height) == Hist(pos.Index, pos.Height, version)
+  ensures C03/start-value: version <= theEnd() && pos.Height <= 64 && inRange(version, pos.Index, pos.Height) && AgreeE(pos.Index, pos.Height, version, theEnd(), thePath()) ==> evalC(result, thePath()) == Hist(pos.Index, pos.Height, version)
 
 func pruneToVerifyIncrementalEnd
   props C03 C12
